@@ -1,4 +1,6 @@
-// Unit c05_sites — property C05: the CALL SITE of the literal range check on the checker's default path
+// Unit c05_sites — property C05: the CALL SITES of the literal range check: the checker's default path (query.rs) and its annotated
+// path (check/mod.rs, the two literal arms under `Switch::Ana`) -- originally only the default path:
+// the CALL SITE of the literal range check on the checker's default path
 // (lang/statics/src/query.rs, fn literal_syn_judgment): an unannotated integer literal is an Int64 and is rejected exactly outside
 // the Int64 range; an unannotated float literal is a Float64 with its bits preserved. The two literal arms of the function's
 // `match lit` are extracted (rule R10) and verified against the CONTRACT of IntegerLiteral::with_type (same text as unit c05_literal,
@@ -61,21 +63,67 @@ impl FloatLiteral {
     pub fn with_type(self, float_type: FloatType) -> (r: Option<FloatLiteral>)
         ensures
             float_type is Float64 ==> r == Some(FloatLiteral::Float64(bits_of(f64_of(self)))),
-            float_type is Float32 ==> (r is Some ==> r.unwrap() is Float32),
+            float_type is Float32 ==> (r is Some <==> fits_f32(self)) && (r is Some ==> r.unwrap() == FloatLiteral::Float32(narrowed_bits(self))),
     { unimplemented!() }
 }
+// [FLIT-F32]: a literal fits binary32 iff it is not finite or stays finite after narrowing; `narrowed_bits` is the correctly rounded binary32
+pub uninterp spec fn fits_f32(l: FloatLiteral) -> bool;
+pub uninterp spec fn narrowed_bits(l: FloatLiteral) -> u32;
 
 // ---- stand-ins for the checker's arena vocabulary (signature only) ----
 pub mod ss {
     use vstd::prelude::*;
+    pub use super::{PrimitiveType, IntegerType, FloatType};
     pub struct ValueId { pub raw: u64 }
+    #[derive(Clone, Copy)]
     pub struct TypeId { pub raw: u64 }
+    #[derive(Clone, Copy)]
+    pub struct KindId { pub raw: u64 }
+    pub struct TyEnv { pub raw: u64 }
     pub enum Value { Lit(super::Literal) }
+    pub struct PrimitiveTy(pub PrimitiveType);
+    impl PrimitiveTy {
+        #[verifier::external_body]
+        pub fn build(self, tycker: &mut super::Tycker, env: &TyEnv) -> (r: TypeId) ensures r == super::prim_ty(self.0) { unimplemented!() }
+    }
 }
+pub use Literal as Lit;
+pub use check::TyckError;
+// the annotated path (check/mod.rs): the CPS checker's vocabulary, signature only. `err_k` records the error and answers Err (that is
+// all the arms rely on: `err_k(..)?` leaves the function); `primitive_type` / `Lub::lub_k` are uninterpreted functions of their arguments
+#[derive(Clone, Copy)]
+pub enum AnnId { Set, Kind(ss::KindId), Type(ss::TypeId) }
+pub enum Switch<Ann> { Syn, Ana(Ann) }
+pub struct KontFailure { pub raw: u64 }
+pub type ResultKont<T> = Result<T, KontFailure>;
+pub struct Tycker { pub errors: Ghost<Seq<check::TyckError>> }
+pub uninterp spec fn prim_of(ty: ss::TypeId) -> Option<PrimitiveType>;
+pub uninterp spec fn lub_of(a: ss::TypeId, b: ss::TypeId) -> ss::TypeId;
+#[verifier::external_type_specification]
+#[verifier::external_body]
+pub struct ExLocation<'a>(std::panic::Location<'a>);
+pub assume_specification<'a>[ std::panic::Location::<'a>::caller ]() -> (r: &'static std::panic::Location<'static>);
+impl Tycker {
+    #[verifier::external_body]
+    pub fn err_k<T>(&mut self, error: check::TyckError, blame: &'static std::panic::Location<'static>) -> (r: ResultKont<T>)
+        ensures r is Err, final(self).errors@ == old(self).errors@.push(error)
+    { unimplemented!() }
+}
+#[verifier::external_body]
+pub fn primitive_type(tycker: &Tycker, ty: ss::TypeId) -> (r: Option<ss::PrimitiveType>) ensures r == prim_of(ty) { unimplemented!() }
+pub struct Lub;
+impl Lub {
+    #[verifier::external_body]
+    pub fn lub_k(a: ss::TypeId, b: ss::TypeId, tycker: &mut Tycker) -> (r: ResultKont<ss::TypeId>)
+        ensures r is Ok ==> r->Ok_0 == lub_of(a, b) && final(tycker).errors@ == old(tycker).errors@
+    { unimplemented!() }
+}
+pub struct Site { pub info: ss::TyEnv }
 pub mod check {
     use vstd::prelude::*;
     // the two variants the literal arms construct (the real enum has many more)
     pub enum TyckError {
+        SortMismatch,
         IntegerLiteralOutOfRange { value: i128, integer_type: super::IntegerType },
         FloatLiteralOutOfRange { value: f64, float_type: super::FloatType },
     }
@@ -121,6 +169,68 @@ pub fn syn_float_site(value: &FloatLiteral) -> (r: Option<LiteralSynOutcome>)
 @*/
     ;
     Some(LiteralSynOutcome::Value { id: site_id(), value: ss::Value::Lit(lit), ty })
+}
+
+// ---- the annotated path: the two literal arms of the checker's `match lit` under `Switch::Ana(annotation)` (check/mod.rs, rule R10).
+// The wrappers' first line restates the enclosing arm's `let switch = Switch::Ana(annotation);`, their last the tuple the arm yields. ----
+// what the annotation asks for
+pub open spec fn ann_int(a: AnnId) -> Option<(ss::TypeId, IntegerType)> {
+    match a { AnnId::Type(ty) => match prim_of(ty) { Some(PrimitiveType::Integer(t)) => Some((ty, t)), _ => None }, _ => None }
+}
+pub open spec fn ann_float(a: AnnId) -> Option<(ss::TypeId, FloatType)> {
+    match a { AnnId::Type(ty) => match prim_of(ty) { Some(PrimitiveType::Float(t)) => Some((ty, t)), _ => None }, _ => None }
+}
+pub open spec fn ann_type(a: AnnId) -> Option<ss::TypeId> { match a { AnnId::Type(ty) => Some(ty), _ => None } }
+impl Site {
+    pub fn ana_integer_site(&self, tycker: &mut Tycker, annotation: AnnId, i: IntegerLiteral) -> (r: ResultKont<(Lit, ss::TypeId)>)
+        ensures
+            // [ANA-INT-RANGE] checked against an integer primitive type t: accepted exactly inside t's range, carried at t with its exact
+            // value, at the annotated type
+            ann_int(annotation) matches Some((ty, t)) ==>
+                ((r is Ok <==> lo(t) <= mval(i) <= hi(t))
+                 && (r matches Ok((Literal::Integer(l), rty)) ==> mval(l) == mval(i) && mtype(l) == Some(t) && rty == ty)),
+            // [ANA-INT-DEFAULT] checked against any other type: treated as an Int64 literal (whose type must join with the annotation)
+            ann_type(annotation) matches Some(ty) ==> (ann_int(annotation) is None ==>
+                ((r is Ok ==> lo(IntegerType::Int64) <= mval(i) <= hi(IntegerType::Int64))
+                 && (r matches Ok((Literal::Integer(l), rty)) ==> mval(l) == mval(i) && mtype(l) == Some(IntegerType::Int64)
+                     && rty == lub_of(prim_ty(PrimitiveType::Integer(IntegerType::Int64)), ty)))),
+            // [ANA-SORT] a kind or sort annotation is an error
+            ann_type(annotation) is None ==> r is Err,
+            r is Ok ==> r->Ok_0.0 is Integer,
+            // [ANA-INT-ERROR] a rejected literal is reported with its exact value and the type it does not fit
+            ann_int(annotation) matches Some((ty, t)) ==> (!(lo(t) <= mval(i) <= hi(t)) ==>
+                final(tycker).errors@.len() > 0 && (final(tycker).errors@.last() matches check::TyckError::IntegerLiteralOutOfRange { value, integer_type }
+                    && value as int == mval(i) && integer_type == t)),
+    {
+        let switch = Switch::Ana(annotation);
+        let (lit, ty) =
+/*@arm lang/statics/src/check/mod.rs :: impl Tyck<'a> for TyEnvT<su::TermId> :: fn tyck_inner_k :: arm /Lit::Integer\(i\)/
+@*/
+        ;
+        Ok((lit, ty))
+    }
+    pub fn ana_float_site(&self, tycker: &mut Tycker, annotation: AnnId, value: FloatLiteral) -> (r: ResultKont<(Lit, ss::TypeId)>)
+        ensures
+            // [ANA-FLOAT-RANGE] checked against Float64: always accepted with its bits; against Float32: accepted exactly when it fits binary32,
+            // carried as the correctly rounded binary32; at the annotated type
+            ann_float(annotation) matches Some((ty, t)) ==>
+                ((r is Ok <==> (t is Float64 || fits_f32(value)))
+                 && (r matches Ok((Literal::Float(l), rty)) ==> rty == ty
+                     && l == (if t is Float64 { FloatLiteral::Float64(bits_of(f64_of(value))) } else { FloatLiteral::Float32(narrowed_bits(value)) }))),
+            // [ANA-FLOAT-DEFAULT] checked against any other type: a Float64 with its bits
+            ann_type(annotation) is Some ==> (ann_float(annotation) is None ==>
+                (r matches Ok((Literal::Float(l), rty)) ==> l == FloatLiteral::Float64(bits_of(f64_of(value))))),
+            // [ANA-FLOAT-SORT]
+            ann_type(annotation) is None ==> r is Err,
+            r is Ok ==> r->Ok_0.0 is Float,
+    {
+        let switch = Switch::Ana(annotation);
+        let (lit, ty) =
+/*@arm lang/statics/src/check/mod.rs :: impl Tyck<'a> for TyEnvT<su::TermId> :: fn tyck_inner_k :: arm /Lit::Float\(value\)/
+@*/
+        ;
+        Ok((lit, ty))
+    }
 }
 
 // vacuity guards
